@@ -28,7 +28,11 @@ static void scenario(uint64_t seed, vh::SplitMix& rng, long long it) {
   c.signature = "SPSCRingBuffer operation never returns";
   c.detail = desc;
   std::vector<int> pushedOk, poppedVals;
-  long occ = 0;  // ghost occupancy (exact: one thread runs at a time)
+  // ghost occupancy (exact: one thread runs at a time); kept in the runtime so that the compiler cannot
+  // cache it across a relaxed atomic
+  auto occGet = [] { return dsched::ghostGet(8); };
+  auto occAdd = [](long d) { dsched::ghostAdd(8, d); };
+  occAdd(-occGet());
   int bad = 0;
   long liveBefore = AtomPayload::live();
   dsched::clearNames();
@@ -42,10 +46,11 @@ static void scenario(uint64_t seed, vh::SplitMix& rng, long long it) {
         int tag = 1;
         for (int k : pplan) {
           if (k == 0) {
-            long occ0 = occ;
+            AtomPayload tmp(tag);  // destroyed (a scheduling point) only after the ghost update
+            long occ0 = occGet();
             DS_CALL("try_push %d", tag);
-            bool ok = ring.try_push(AtomPayload(tag));
-            if (ok) { ++occ; pushedOk.push_back(tag); }
+            bool ok = ring.try_push(std::move(tmp));
+            if (ok) { occAdd(1); pushedOk.push_back(tag); }
             else if (occ0 != (long)Ring::capacity()) ++bad;  // rejected although not full when the call started
             DS_RET("try_push %d", ok ? 1 : 0);
             ++tag;
@@ -53,33 +58,33 @@ static void scenario(uint64_t seed, vh::SplitMix& rng, long long it) {
             std::vector<AtomPayload> items;
             std::string a;
             for (int j = 0; j < k; ++j) { items.emplace_back(tag + j); a += " " + std::to_string(tag + j); }
-            long occ0 = occ;
+            long occ0 = occGet();
             dsched::note("call try_push_batch%s", a.c_str());
             size_t n = ring.try_push_batch(items.begin(), items.end());
             for (size_t j = 0; j < n; ++j) pushedOk.push_back(tag + (int)j);
-            occ += (long)n;
+            occAdd((long)n);
             if (n == 0 && occ0 != (long)Ring::capacity()) ++bad;
             DS_RET("try_push_batch %zu", n);
             tag += k;
           }
-          if (occ > (long)Ring::capacity()) ++bad;
+          if (occGet() > (long)Ring::capacity()) ++bad;
         }
       });
       std::thread cons([&] {
         for (int k : cplan) {
           if (k == 0) {
-            long occ0 = occ;
+            long occ0 = occGet();
             DS_CALL("try_pop");
             AtomPayload item;
             bool ok = ring.try_pop(item);
-            if (ok) { --occ; poppedVals.push_back(item.get()); }
+            if (ok) { occAdd(-1); poppedVals.push_back(item.get()); }
             else if (occ0 != 0) ++bad;  // reported empty although an element was there when the call started
             DS_RET("try_pop %d%s", ok ? 1 : 0, ok ? (" " + std::to_string(item.get())).c_str() : "");
           } else if (k > 0) {
             std::vector<AtomPayload> out(k);
             DS_CALL("try_pop_batch %d", k);
             size_t n = ring.try_pop_batch(out.begin(), (size_t)k);
-            occ -= (long)n;  // ghost update before the next scheduling point
+            occAdd(-(long)n);  // ghost update before the next scheduling point
             std::string r = std::to_string(n);
             for (size_t j = 0; j < n; ++j) { poppedVals.push_back(out[j].get()); r += " " + std::to_string(out[j].get()); }
             dsched::note("ret try_pop_batch %s", r.c_str());
